@@ -501,6 +501,7 @@ def cli_corpus():
         c(mode="constant", dur=hx("300ms"), conc=1, rate=hx("10/50ms"), dist=none, bodyms=30, igndrop=1, pushgw="fail1", static=1),
         c(mode="file", fdur=500, conc=2, bodyms=2, maxit=9, failevery=2, fstages="u:300:2", pushgw="ok", static=1),
         c(mode="users", dur=d200, conc=2, bodyms=3, pushgw="down", leakcheck=0),
+        c(mode="users", dur=d200, conc=2, bodyms=3, maxit=12, failevery=4, pushgw="ok", pushurl="bare", static=1),   # PROMETHEUS_PUSH_GATEWAY=host:port
         c(mode="constant", dur=d200, conc=2, raw=hx("--nope")),
         c(mode="constant", dur=d200, conc=2, raw=hx("extra-positional")),
     ]
